@@ -105,7 +105,7 @@ func c02diff(path string, a, b reflect.Value) string {
 }
 
 func TestZZBoundedC02(t *testing.T) {
-	fmt.Println("BOUNDED-BOUND: 148 statements (every statement family, every option of SELECT / SHOW / CREATE / ALTER, names needing quotes and escapes, keywords as names, extreme numbers and durations, negated operands, regexes with slashes, nested subqueries): parse, print, re-parse, structural comparison")
+	fmt.Println("BOUNDED-BOUND: 153 statements (every statement family, every option of SELECT / SHOW / CREATE / ALTER, names needing quotes and escapes, keywords as names, extreme numbers and durations, negated operands, regexes with slashes, nested subqueries): parse, print, re-parse, structural comparison")
 	corpus := []string{
 		`SELECT mean(value) FROM cpu WHERE host = 'a' AND time > now() - 1h GROUP BY time(5m), host fill(none) ORDER BY time DESC LIMIT 5 OFFSET 2 SLIMIT 3 SOFFSET 1 tz('UTC')`,
 		`SELECT mean(value) FROM cpu GROUP BY time(5m, 1m) fill(0)`,
@@ -137,6 +137,11 @@ func TestZZBoundedC02(t *testing.T) {
 		`SELECT value AS "my value", value AS "select" FROM cpu`,
 		`SELECT value AS value, mean(value) AS mean, a + b AS a_b, "FROM" AS "SELECT", "Limit", "TRUE", "Database" FROM cpu`,
 		`SELECT "FROM" FROM "Select"."Where"."Group" WHERE "AND" = 'x' GROUP BY "Time", "BY"`,
+		`SELECT value FROM cpu WHERE host =~ /a\\\/b/ AND path !~ /\/x\\y/`,
+		`SELECT value FROM cpu ORDER BY ASC`,
+		`SELECT value FROM cpu ORDER BY ASC LIMIT 5`,
+		`SHOW SERIES ORDER BY ASC LIMIT 2`,
+		`SELECT "cpu.load.avg.1m", mean("a.b.c.d.e") FROM system WHERE "a.b.c.d" > 1 GROUP BY "x.y.z.w"`,
 		`SELECT "select", "from", "my field", "a\"b", "a\\b", "a'b" FROM "my measurement"`,
 		`SELECT value FROM "db"."rp"."m", "db"..m2`,
 		`SELECT value FROM "select"."from"."where"`,
